@@ -1,6 +1,8 @@
 package main
 
 import (
+	"go/token"
+	"go/types"
 	"fmt"
 	"sort"
 
@@ -143,5 +145,78 @@ func c19MetafileFinalRecord(p *Prog) *RuleResult {
 		r.Note("reviewed rewrite "+k+": "+reason)
 	}
 	r.Anchor("metafile writes that report import-record fields", nWrites >= 1)
+	return r
+}
+
+// C19/R5 attribution and the inputs list use one predicate.
+//
+// The metafile's top-level "inputs" (bundler.generateMetadataJSON) leaves out every file flagged
+// OmitFromSourceMapsAndMetafile — the runtime and the synthetic modules esbuild generates for glob
+// imports. The per-output byte attribution (outputs[..].inputs), recorded in generateChunkJS, must
+// leave out exactly the same files, or an output attributes bytes to an "input" that is not listed
+// and was never read. Rule: the attribution record in generateChunkJS is made only on the edge
+// where the file's OmitFromSourceMapsAndMetafile flag is false, and generateMetadataJSON tests the
+// same flag.
+func c19OmitPredicate(p *Prog) *RuleResult {
+	r := NewRule("C19/R5 omit-predicate-siblings", "the per-output byte attribution and the metafile's list of inputs exclude files by the same predicate (the file's OmitFromSourceMapsAndMetafile flag)")
+	gm := p.FindFunc("bundler.(*Bundle).generateMetadataJSON")
+	gc := p.FindFunc("linker.(*linkerContext).generateChunkJS")
+	if !r.Anchor("bundler.(*Bundle).generateMetadataJSON", gm != nil) || !r.Anchor("linker.(*linkerContext).generateChunkJS", gc != nil) {
+		return r
+	}
+	testsFlag := func(fn *ssa.Function) bool {
+		found := false
+		eachInstr(fn, func(b *ssa.BasicBlock, in ssa.Instruction) {
+			if ifi, ok := in.(*ssa.If); ok {
+				c := ifi.Cond
+				if u, ok := c.(*ssa.UnOp); ok && u.Op == token.NOT {
+					c = u.X
+				}
+				if _, n, ok := loadedField(c); ok && n == "OmitFromSourceMapsAndMetafile" {
+					found = true
+				}
+			}
+		})
+		return found
+	}
+	r.Instances++
+	if testsFlag(gm) {
+		r.OK("generateMetadataJSON filters inputs by OmitFromSourceMapsAndMetafile", true, "the inputs list skips flagged files")
+	} else {
+		r.Fail("generateMetadataJSON filters inputs by OmitFromSourceMapsAndMetafile", p.Pos(gm.Pos()), "the metafile's list of inputs no longer tests the OmitFromSourceMapsAndMetafile flag")
+	}
+	n := 0
+	eachInstr(gc, func(b *ssa.BasicBlock, in ssa.Instruction) {
+		mu, ok := in.(*ssa.MapUpdate)
+		if !ok {
+			return
+		}
+		// the attribution map: map[uint32][][]byte keyed by the compile result's source index
+		mt, ok := mu.Map.Type().Underlying().(*types.Map)
+		if !ok {
+			return
+		}
+		if _, isSlice := mt.Elem().Underlying().(*types.Slice); !isSlice {
+			return
+		}
+		if bt, ok := mt.Key().Underlying().(*types.Basic); !ok || bt.Kind() != types.Uint32 {
+			return
+		}
+		n++
+		r.Instances++
+		key := "generateChunkJS attribution record"
+		okFlag := false
+		for _, f := range factsAt(b) {
+			if _, name, ok := loadedField(f.Cond); ok && name == "OmitFromSourceMapsAndMetafile" && !f.True {
+				okFlag = true
+			}
+		}
+		if okFlag {
+			r.OK(key, true, "recorded only where OmitFromSourceMapsAndMetafile is false")
+		} else {
+			r.Fail(key, p.Pos(mu.Pos()), "bytes are attributed to a file without having tested its OmitFromSourceMapsAndMetafile flag, which is what decides whether the file appears in the metafile's inputs: a synthetic module (glob import) is then attributed bytes under a key that is not a listed input")
+		}
+	})
+	r.Anchor("generateChunkJS: the attribution record", n >= 1)
 	return r
 }
